@@ -1,6 +1,6 @@
 (* Prop_C03 — operator algebra agrees with matrix algebra; advertised shapes; rejection. *)
 From Coq Require Import ZArith List Bool.
-From SV Require Import lib.Scalar lib.BigSum model.Block model.Linop proofs.LinopTheory proofs.LinopAlgebra proofs.LinopStack.
+From SV Require Import lib.Scalar lib.BigSum lib.NdArray model.Block model.Linop proofs.LinopTheory proofs.LinopAlgebra proofs.LinopStack proofs.LinopLinear proofs.LinopRetab.
 Import ListNotations.
 Local Open Scope Z_scope.
 
@@ -86,6 +86,52 @@ Theorem C03_split_points_are_prefix_sums :
     getZ S (match axis with None => 0 | Some ax => ax mod lenZ S end) = sumlist (map (axsize axis) shs).
 Proof. exact stack_params_prefix_sums. Qed.
 Print Assumptions C03_split_points_are_prefix_sums.
+
+(* ---- the EXECUTED model (re-tabulating intermediate arrays, used by the correspondence) equals the PROVED model on the
+        output box; every modelled leaf only reads its input inside the index box (proofs/LinopRetab.v) ---- *)
+(* ---------- Prop_C03 new section ---------- *)
+Theorem C03_executed_model_is_proved_model :
+  forall (R : StarRing) arr scal orc A,
+    wf A = true -> nodes_ok' (local R arr scal orc) A ->
+    forall x o, inbox (oshape_of A) o -> den (R:=R) arr scal orc retab A x o = D R arr scal orc A x o.
+Proof. exact den_retab_eq. Qed.
+
+Theorem C03_executed_model_is_proved_model_proven_leaves :
+  forall (R : StarRing) arr scal orc A,
+    wf A = true -> nodes_ok' (leaf_local_ok R orc) A ->
+    forall x o, inbox (oshape_of A) o -> den (R:=R) arr scal orc retab A x o = D R arr scal orc A x o.
+Proof. exact den_retab_eq_proven. Qed.
+
+Theorem C03_any_transparent_force :
+  forall (R : StarRing) arr scal orc (force : list Z -> (list Z -> R) -> list Z -> R),
+    (forall s (f : list Z -> R) i, Forall (fun n => 0 <= n) s -> inbox s i -> force s f i = f i) ->
+    forall A, wf A = true -> nodes_ok' (fun L => wf L = true -> local R arr scal orc L) A ->
+    forall x o, inbox (oshape_of A) o -> den (R:=R) arr scal orc force A x o = D R arr scal orc A x o.
+Proof. exact den_force_eq. Qed.
+
+Theorem C03_trees_are_local :
+  forall (R : StarRing) arr scal orc A,
+    wf A = true -> nodes_ok' (local R arr scal orc) A -> local R arr scal orc A.
+Proof. exact local_tree. Qed.
+
+Theorem C03_proven_leaves_are_local :
+  forall (R : StarRing) arr scal orc L, proven_local L = true -> wf L = true -> local R arr scal orc L.
+Proof. exact proven_local_spec. Qed.
+
+Theorem C03_executed_model_is_linear :
+  forall (R : StarRing) arr scal orc A,
+    wf A = true -> nodes_ok' (leaf_local_ok R orc) A ->
+    (forall L, library_backed L = true -> linear R (orc L)) ->
+    forall (a : R) x y o, inbox (oshape_of A) o ->
+      den (R:=R) arr scal orc retab A (fun i => add (mul a (x i)) (y i)) o =
+      add (mul a (den (R:=R) arr scal orc retab A x o)) (den (R:=R) arr scal orc retab A y o).
+Proof. exact den_retab_linear. Qed.
+Print Assumptions C03_executed_model_is_proved_model.
+Print Assumptions C03_executed_model_is_proved_model_proven_leaves.
+Print Assumptions C03_any_transparent_force.
+Print Assumptions C03_trees_are_local.
+Print Assumptions C03_proven_leaves_are_local.
+Print Assumptions C03_executed_model_is_linear.
 
 Example C03_example_reject :
   wf (Compose [Resize [3] [4] None None; Resize [5] [3] None None]) = false /\
